@@ -50,3 +50,26 @@ VARIANTS = [
     dict(name="all-nan-hoisted", kind="benign", edits=[(ORE,
         "        if np.isnan(rest_scores).all():\n            break\n", "        exhausted = np.isnan(rest_scores).all()\n        if exhausted:\n            break\n")]),
 ]
+
+# seeded by an independent agent: sign flip in stage 1 only + argmin everywhere
+VARIANTS += [
+    dict(name="seed-negated-stage1-argmin-everywhere", kind="break", rule="C02-stages", edits=[
+        (ORE, "masked_scores = np.where(is_valid, scores, np.nan)", "masked_scores = np.where(is_valid, -scores if maximize else scores, np.nan)"),
+        (ORE, """        est_idx, gt_idx = (
+            np.unravel_index(np.nanargmax(masked_scores), masked_scores.shape)
+            if maximize
+            else np.unravel_index(np.nanargmin(masked_scores), masked_scores.shape)
+        )""", "        est_idx, gt_idx = np.unravel_index(np.nanargmin(masked_scores), masked_scores.shape)"),
+        (ORE, STAGE2_SEL, "        est_idx, gt_idx = np.unravel_index(np.nanargmin(rest_scores), rest_scores.shape)")]),
+    dict(name="seed-fp-guard-on-estimate", kind="break", rule="C02-label-policy", edits=[(OM,
+        "if ground_truth.semantic_label.is_fp() or self == MatchingLabelPolicy.ALLOW_ANY:", "if estimation.semantic_label.is_fp() or self == MatchingLabelPolicy.ALLOW_ANY:")]),
+    dict(name="negate-both-stages-argmin", kind="benign", edits=[
+        (ORE, "masked_scores = np.where(is_valid, scores, np.nan)", "masked_scores = np.where(is_valid, -scores if maximize else scores, np.nan)"),
+        (ORE, """        est_idx, gt_idx = (
+            np.unravel_index(np.nanargmax(masked_scores), masked_scores.shape)
+            if maximize
+            else np.unravel_index(np.nanargmin(masked_scores), masked_scores.shape)
+        )""", "        est_idx, gt_idx = np.unravel_index(np.nanargmin(masked_scores), masked_scores.shape)"),
+        (ORE, "    rest_scores = score_table[..., 0]\n", "    rest_scores = -score_table[..., 0] if maximize else score_table[..., 0]\n"),
+        (ORE, STAGE2_SEL, "        est_idx, gt_idx = np.unravel_index(np.nanargmin(rest_scores), rest_scores.shape)")]),
+]
